@@ -76,7 +76,11 @@ func histWorker(req N) (resp N) {
 	ctxs := make([]context.Context, n+1)
 	cancels := make([]context.CancelFunc, n+1)
 	for i := 1; i <= n; i++ {
-		ctxs[i], cancels[i] = context.WithCancel(context.Background())
+		if k, _ := invs[i-1].(N)["ctx"].(string); k == "background" {
+			ctxs[i], cancels[i] = context.Background(), func() {}
+		} else {
+			ctxs[i], cancels[i] = context.WithCancel(context.Background())
+		}
 	}
 	defer func() {
 		for i := 1; i <= n; i++ {
@@ -114,8 +118,12 @@ func histWorker(req N) (resp N) {
 		}
 		return object.Nil
 	})
-	globals := map[string]any{"bump": bump, "poke": poke, "spin": spin}
-	gnames := []string{"bump", "poke", "spin"}
+	// boom(): a host builtin that panics (a Go panic unwinding through many script frames)
+	boom := object.NewBuiltin("boom", func(ctx context.Context, args ...object.Object) object.Object {
+		panic("boom: host builtin panicked")
+	})
+	globals := map[string]any{"bump": bump, "poke": poke, "spin": spin, "boom": boom}
+	gnames := []string{"bump", "poke", "spin", "boom"}
 	cfg := risor.NewConfig()
 	vmOpts := append(cfg.VMOpts(), vm.WithGlobals(globals))
 	for k := range cfg.Globals() {
@@ -126,6 +134,7 @@ func histWorker(req N) (resp N) {
 		"error":     "n := bump()\npoke()\nfunc f(k) { if k == 0 { return [][1] }\n return f(k - 1) }\nf(3)",
 		"panic":     "n := bump()\npoke()\nz := 0\n1 / z",
 		"overflow":  "n := bump()\npoke()\nfunc g(k) { return g(k + 1) }\ng(0)",
+		"deeppanic": "n := bump()\npoke()\nfunc dp(k) { if k == 0 { return boom() }\n return dp(k - 1) }\ndp(600)",
 		"cancelled": "n := bump()\npoke()\nfor { spin() }",
 	}
 	// functions for the Call API come from a library code object run first (not part of the history)
@@ -133,6 +142,7 @@ func histWorker(req N) (resp N) {
 		"func do_error() { n := bump(); poke(); func f(k) { if k == 0 { return [][1] }; return f(k - 1) }; return f(3) }\n" +
 		"func do_panic() { n := bump(); poke(); z := 0; return 1 / z }\n" +
 		"func do_overflow() { n := bump(); poke(); func g(k) { return g(k + 1) }; return g(0) }\n" +
+		"func do_deeppanic() { n := bump(); poke(); func dp(k) { if k == 0 { return boom() }; return dp(k - 1) }; return dp(600) }\n" +
 		"func do_cancelled() { n := bump(); poke(); for { spin() } }\n"
 	libCode, err := compileSnippet(lib, gnames)
 	if err != nil {
@@ -147,7 +157,7 @@ func histWorker(req N) (resp N) {
 		return N{"k": "nolib", "msg": err.Error()}
 	}
 	fns := map[string]*object.Function{}
-	for _, k := range []string{"normal", "error", "panic", "overflow", "cancelled"} {
+	for _, k := range []string{"normal", "error", "panic", "deeppanic", "overflow", "cancelled"} {
 		o, err := machine.Get("do_" + k)
 		if err != nil {
 			return N{"k": "nolib", "msg": err.Error()}
@@ -183,7 +193,7 @@ func histWorker(req N) (resp N) {
 					val = tos
 				}
 			}
-			for _, k := range []string{"normal", "error", "panic", "overflow", "cancelled"} {
+			for _, k := range []string{"normal", "error", "panic", "deeppanic", "overflow", "cancelled"} {
 				if o, gerr := machine.Get("do_" + k); gerr == nil {
 					if fn, ok := o.(*object.Function); ok {
 						fns[k] = fn
